@@ -63,6 +63,13 @@ def nonkafka_configs():
         out.append({"cluster": CLUSTER, "discovery": False, "timeout_ms": 5000, "topics": ["t"],
                     "logs": {"t/0": 2, "t/1": 1}, "group": {"leader": "real"}, "processor": "sync",
                     "proc_raises": k, "script": [["start"]], "menu": {"timer_early": True}, "horizon_s": 300})
+    # the processor's Deferred fails later, possibly while a rebalance is already shutting its consumer down
+    for mode in (None, {"api": 12, "err": 27, "budget": 1}, {"api": 12, "err": 25, "budget": 1}):
+        cl = dict(CLUSTER, modes=[mode]) if mode else CLUSTER
+        out.append({"cluster": cl, "discovery": False, "timeout_ms": 5000, "topics": ["t"],
+                    "logs": {"t/0": 2, "t/1": 1}, "group": {"leader": "real"}, "processor": "async",
+                    "script": [["start"]], "menu": {"timer_early": True, "proc_fail": True, "proc_early": True},
+                    "horizon_s": 300})
     return out
 
 
@@ -75,7 +82,8 @@ RULE = ("real ConsumerGroup + KafkaClient with the simulated coordinator (member
         "every execution then follows the fault-free default schedule.  Oracle (bounded liveness on the real code): "
         "within 600 virtual seconds the coordinator lists the member in its current generation and everything in "
         "its assigned partitions has been consumed -- or the start Deferred has fired with the processor's non-Kafka "
-        "error; the start Deferred never fails with a Kafka error; every scheduled rejoin uses a documented backoff "
+        "error (raised synchronously, or an asynchronous processor result failing at any later point, also while a "
+        "rebalance is shutting its consumer down); the start Deferred never fails with a Kafka error; every scheduled rejoin uses a documented backoff "
         "(retry 0.1 s for rebalance/eviction answers, initial 1 s, fatal 10 s).")
 ASSUME = ["SimGroup is the coordinator", "faults cease after the injected ones (fault-free continuation)"]
 
@@ -85,12 +93,12 @@ def run(tier, seed, only=None):
         plans = [("join-protocol-1fault", configs(tier, MENU), (1, 1, 2)),
                  ("join-protocol-2faults-light", configs(tier, MENU_LIGHT)[:2], (2, 0, 2)),
                  ("transient-outages", sticky_configs(), (0, 1, 1)),
-                 ("non-kafka-error", nonkafka_configs(), (0, 1, 1))]
+                 ("non-kafka-error", nonkafka_configs(), (1, 2, 3))]
     else:
         plans = [("join-protocol-2faults", configs(tier, MENU), (2, 1, 2)),
                  ("join-protocol-3faults-light", configs(tier, MENU_LIGHT), (3, 0, 3)),
                  ("transient-outages", sticky_configs(), (1, 1, 2)),
-                 ("non-kafka-error", nonkafka_configs(), (1, 1, 2))]
+                 ("non-kafka-error", nonkafka_configs(), (2, 2, 4))]
     if only:
         plans = [p for p in plans if p[0] in only]
     return _dfs.run_plans(PROPERTY, SPEC, plans, seed, RULE, ASSUME, max_steps=600)
